@@ -12,10 +12,10 @@
  *   rb <n,n,…> <probeMax> <totMax>           update_received_blocks sequence + check_* queries
  *   body <bodyLen> <seed> <off:len:total,…>  coap_block_build_body sequence
  *   srcv <szx> <bodyLen> <seed> <size1|-> <num:m[:len],…>   coap_handle_request_put_block sequence (SINGLE_BODY)
- *   srcv2 <maxBlk> <bodyLen> <seed> <size1|-> <num.m.szx,…>  the same with a block size per step and a server block size limit
+ *   srcv2 <maxBlk> <bodyLen> <seed> <size1|-> <num.m.szx[.len],…>  the same with a block size per step and a server block size limit
  *   srcv3 <maxBlk> <len1> <seed1> <len2> <seed2> <size1:0|1> <t.num.m.szx.r,…>   two interleaved Block1 transfers to ONE resource,
  *                                              told apart by Request-Tag only (r: 0 absent, 1 EMPTY, 2..9 / 10..17 = 1..8 bytes)
- *   crcv <single> <bodyLen> <seed> <size2|-> <num.m.szx.etag.fmt[.len],…>   coap_handle_response_get_block sequence (client, Block2)
+ *   crcv <single> <bodyLen> <seed> <size2|-> <num.m.szx.etag.fmt[.len[.s2]],…>   coap_handle_response_get_block sequence (client, Block2)
  *   xmit2 <szx> <bodyLen> <seed> <mtu2> <num.szx,…>        coap_add_data_large_response + coap_handle_request_send_block sequence (server, Block2)
  *   xmit1 <cszx|-> <bodyLen> <seed> <mtu> <code.num.szx|code,…>   coap_add_data_large_request + coap_send + coap_handle_response_send_block sequence (client, Block1)
  *
@@ -26,6 +26,36 @@
 #define NDEBUG 1            /* as the shipped library build (RelWithDebInfo) */
 #include "sim_core.h"
 #include "coap_block.c"     /* the file under test: static functions become reachable */
+#include <malloc.h>
+
+/* Allocation wrap (link with --wrap=coap_malloc_type,--wrap=coap_realloc_type,--wrap=coap_free_type):
+ *  - every byte libcoap allocates (PDUs, lg_crcv/lg_srcv/lg_xmit, body buffers) starts out as h_poison, so an op run twice
+ *    with two poisons prints the same line iff nothing it prints depends on never-written memory (` UNINIT` otherwise);
+ *  - h_live counts the allocations not yet freed: an op that ends with more than it started with leaked (` LEAK=<n>`). */
+void *__real_coap_malloc_type(coap_memory_tag_t type, size_t size);
+void *__real_coap_realloc_type(coap_memory_tag_t type, void *p, size_t size);
+void __real_coap_free_type(coap_memory_tag_t type, void *p);
+#define H_POISON_MAX ((size_t)1 << 26)      /* a body buffer of the size a hostile Size1/Size2 announces is left alone */
+static uint8_t h_poison = 0xA5;
+static long h_live;
+void *__wrap_coap_malloc_type(coap_memory_tag_t type, size_t size) {
+  void *p = __real_coap_malloc_type(type, size);
+  if (p) { if (size <= H_POISON_MAX) memset(p, h_poison, size); h_live++; }
+  return p;
+}
+void *__wrap_coap_realloc_type(coap_memory_tag_t type, void *p, size_t size) {
+  size_t old = p ? malloc_usable_size(p) : 0;      /* under ASan: the size asked for */
+  void *q = __real_coap_realloc_type(type, p, size);
+  if (q) {
+    if (!p) h_live++;
+    if (size > old && size - old <= H_POISON_MAX) memset((uint8_t *)q + old, h_poison, size - old);
+  }
+  return q;
+}
+void __wrap_coap_free_type(coap_memory_tag_t type, void *p) {
+  if (p) h_live--;
+  __real_coap_free_type(type, p);
+}
 
 static void h_init(void) { sim_global_init(); }
 
@@ -130,7 +160,8 @@ static void do_adl(size_t maxSize, size_t tokLen, int blk, unsigned maxBlk, size
   }
   rel_count = 0;
   r = coap_add_data_large_request(s, p, length, body, rel_cb, NULL);
-  if (!r) printf("fail rel=%d", rel_count);
+  /* a refused call must not leave the caller's PDU pointing at the lg_xmit it allocated and freed again */
+  if (!r) printf("fail%s rel=%d", p->lg_xmit ? " DANGLING" : "", rel_count);
   else {
     size_t plen = 0; const uint8_t *pd = NULL;
     coap_get_data(p, &plen, &pd);
@@ -294,7 +325,8 @@ static void do_srcv(unsigned szx, size_t bodyLen, unsigned seed, long size1, cha
   free(body);
 }
 
-/* srcv2 <maxBlk> <bodyLen> <seed> <size1|-> <num.m.szx,…> : every step has its own SZX, payload = the genuine slice */
+/* srcv2 <maxBlk> <bodyLen> <seed> <size1|-> <num.m.szx[.len],…> : every step has its own SZX, payload = the genuine slice
+ * (or its first <len> bytes).  All srcv* lines are run twice with different allocation poisons (` UNINIT` if they differ). */
 static void do_srcv2(unsigned maxBlk, size_t bodyLen, unsigned seed, long size1, char *seq) {
   sim_reset();
   sim_log_enabled = 0;
@@ -319,11 +351,14 @@ static void do_srcv2(unsigned maxBlk, size_t bodyLen, unsigned seed, long size1,
     int added = 0, ret;
     coap_lg_srcv_t *free_lg = NULL;
     size_t chunk, off, plen;
-    if (sscanf(tok, "%u.%u.%u", &num, &m, &szx) != 3 || szx > 6) { printf("bad-op"); break; }
+    long len = -1;
+    int nf = sscanf(tok, "%u.%u.%u.%ld", &num, &m, &szx, &len);
+    if (nf < 3 || szx > 6 || (nf == 4 && len < 0)) { printf("bad-op"); break; }
     chunk = (size_t)1 << (szx + 4);
     off = (size_t)num * chunk;
     if (off > bodyLen) off = bodyLen;
     plen = bodyLen - off < chunk ? bodyLen - off : chunk;
+    if (len >= 0 && (size_t)len <= plen) plen = (size_t)len;      /* a payload shorter than the slice */
     req = coap_pdu_init(COAP_MESSAGE_CON, COAP_REQUEST_CODE_PUT, (coap_mid_t)(100 + k), 2048);
     rsp = coap_pdu_init(COAP_MESSAGE_ACK, 0, (coap_mid_t)(100 + k), 2048);
     coap_add_token(req, 2, tk);
@@ -438,9 +473,11 @@ static void do_srcv3(unsigned maxBlk, size_t len1, unsigned seed1, size_t len2, 
   free(bodies[0]); free(bodies[1]);
 }
 
-/* crcv <single> <bodyLen> <seed> <size2|-> <num.m.szx.etag.fmt[.len],…> : the CLIENT's Block2 receive path.  Every item is a
+/* crcv <single> <bodyLen> <seed> <size2|-> <num.m.szx.etag.fmt[.len[.s2]],…> : the CLIENT's Block2 receive path.  Every item is a
  * 2.05 response (NON, application token) carrying Block2 (num, m, szx), the genuine slice of the body (or its first <len>
- * bytes), ETag = one byte <etag> (0 = no option), Content-Format <fmt> (0 = no option), Size2 as given.  Printed per item:
+ * bytes; a <len> beyond the slice = the whole slice), ETag = one byte <etag> (0 = no option), Content-Format <fmt> (0 = no
+ * option), Size2 as given for the line, or for this item by <s2> (0 = no Size2 option, n = Size2 n-1).  The whole sequence
+ * is run twice with different allocation poisons: ` UNINIT` is appended if the two printed lines differ.  Printed per item:
  *   h<off>:<len>:<total>:<hash>  the function returned 0 and the caller would hand rcvd to the response handler
  *   H<off>:<len>:<total>:<hash>  the response handler was called from inside the function
  *   e402 / e408                  returned 0 with the code rewritten
@@ -484,12 +521,13 @@ static void do_crcv(int single, size_t bodyLen, unsigned seed, long size2, char 
   coap_add_token(sent, 4, tok);
   coap_add_option(sent, COAP_OPTION_URI_PATH, 1, (const uint8_t *)"b");
   for (tk = strtok_r(seq, ",", &save); tk; tk = strtok_r(NULL, ",", &save), k++) {
-    unsigned num, m, szx, etag, fmt; long len = -1;
+    unsigned num, m, szx, etag, fmt; long len = -1, s2 = -1, sz2 = size2;
     uint8_t buf[4];
     coap_pdu_t *rcvd;
     size_t chunk, off, plen;
-    int ret, nf = sscanf(tk, "%u.%u.%u.%u.%u.%ld", &num, &m, &szx, &etag, &fmt, &len);
-    if (nf < 5 || szx > 6 || m > 1 || etag > 255 || fmt > 255) { printf("bad-op"); break; }
+    int ret, nf = sscanf(tk, "%u.%u.%u.%u.%u.%ld.%ld", &num, &m, &szx, &etag, &fmt, &len, &s2);
+    if (nf < 5 || szx > 6 || m > 1 || etag > 255 || fmt > 255 || (nf >= 6 && len < 0) || (nf == 7 && s2 < 0)) { printf("bad-op"); break; }
+    if (nf == 7) sz2 = s2 - 1;
     chunk = (size_t)1 << (szx + 4);
     off = (size_t)num * chunk;
     if (off > bodyLen) off = bodyLen;
@@ -500,7 +538,7 @@ static void do_crcv(int single, size_t bodyLen, unsigned seed, long size2, char 
     if (etag) { buf[0] = (uint8_t)etag; coap_add_option(rcvd, COAP_OPTION_ETAG, 1, buf); }
     if (fmt) coap_add_option(rcvd, COAP_OPTION_CONTENT_FORMAT, coap_encode_var_safe(buf, sizeof(buf), fmt), buf);
     coap_add_option(rcvd, COAP_OPTION_BLOCK2, coap_encode_var_safe(buf, sizeof(buf), (num << 4) | (m << 3) | szx), buf);
-    if (size2 >= 0) coap_add_option(rcvd, COAP_OPTION_SIZE2, coap_encode_var_safe(buf, sizeof(buf), (unsigned)size2), buf);
+    if (sz2 >= 0) coap_add_option(rcvd, COAP_OPTION_SIZE2, coap_encode_var_safe(buf, sizeof(buf), (unsigned)sz2), buf);
     if (plen) coap_add_data(rcvd, plen, body + off);
     crcv_hbuf[0] = crcv_qbuf[0] = 0;
     coap_lock_lock(ctx, break);
@@ -687,7 +725,7 @@ out:
 
 #include "block_sim.h"
 
-static void step(char *line) {
+static void step1(char *line) {
   char *w[16];
   int n = h_words(line, w, 16);
   if (n < 1) { printf("bad-op"); return; }
@@ -734,6 +772,27 @@ static void step(char *line) {
     do_xfer(n, w);
   } else
     printf("bad-op");
+}
+
+/* stdout captured into a string (glibc: `stdout` is an assignable variable) */
+static char *h_cap; static size_t h_caplen; static FILE *h_saved;
+static void cap_begin(void) { fflush(stdout); h_saved = stdout; stdout = open_memstream(&h_cap, &h_caplen); }
+static char *cap_end(void) { fclose(stdout); stdout = h_saved; return h_cap; }
+
+static void step(char *line) {
+  long live0 = h_live;
+  if (!strncmp(line, "crcv ", 5) || !strncmp(line, "srcv", 4)) {
+    /* whatever the receiving application is handed must not depend on bytes nobody wrote */
+    char *copy = strdup(line), *a, *b;
+    h_poison = 0xA5; cap_begin(); step1(line); a = cap_end();
+    h_poison = 0x5A; cap_begin(); step1(copy); b = cap_end();
+    h_poison = 0xA5;
+    fputs(a, stdout);
+    if (strcmp(a, b)) printf(" UNINIT");
+    free(a); free(b); free(copy);
+  } else
+    step1(line);
+  if (h_live != live0) printf(" LEAK=%ld", h_live - live0);
 }
 
 H_MAIN_LOOP(step)
